@@ -258,7 +258,7 @@ class GPMultiFidelitySearcher(GPFIFOSearcher):
 
     def cleanup_pending(self, trial_id: str):
         def filter_pred(x: PendingEvaluation) -> bool:
-            return x.trial_id == trial_id
+            return x.trial_id != trial_id
 
         self.state_transformer.filter_pending_evaluations(filter_pred)
 
